@@ -110,7 +110,7 @@ Proof.
   - destruct H as [[[Hn Ht] _] _]. apply bytes_eqb_eq in Hn. apply N.ltb_lt in Ht. subst.
     split; [reflexivity|exact Ht].
   - destruct H as [[[[Hn Ht] _] _] _]. apply N.ltb_lt in Ht. auto.
-  - destruct H as [[[Hn Ht] _] _]. apply N.ltb_lt in Ht. auto.
+  - destruct H as [[Hn Ht] _]. apply N.ltb_lt in Ht. auto.
   - destruct H as [[[[Hn Ht] _] _] _]. apply N.ltb_lt in Ht. auto.
   - destruct H as [[[[[Hn Ht] _] _] _] _]. apply N.ltb_lt in Ht. auto.
   - destruct H as [[[[Hn Ht] _] _] _]. apply N.ltb_lt in Ht. auto.
@@ -629,4 +629,54 @@ Qed.
 Lemma arrive_ok_amf mt pl : is_amf_type mt = true -> arrive_ok (mt, pl) = true.
 Proof.
   intros H. destruct (amf_type_cases mt H) as [ -> | [ -> | [ -> | -> ] ] ]; reflexivity.
+Qed.
+
+(* ------------------------------------------------------------------ the typed wait over concrete traffic *)
+(* a message carrying a well-formed control packet, or a well-formed request / generic call in
+   any of the four command/data carriers *)
+Definition traffic_msg (m : msg) (p : pkt) : Prop :=
+  wf_pkt p = true /\
+  ((request_like p = true /\ exists mt, is_amf_type mt = true /\ m = (mt, carried mt (marshal p))) \/
+   (is_control p = true /\ m = (mtype_of p, marshal p))).
+
+Lemma traffic_decodes t m p : traffic_msg m p ->
+  arrive_ok m = true /\ decode_message t (fst m) (snd m) = (Ok p, t).
+Proof.
+  intros (Hwf & [(Hr & mt & Hmt & ->)|(Hc & ->)]); cbn [fst snd].
+  - split; [apply arrive_ok_amf; exact Hmt|apply dispatch_request; assumption].
+  - split; [apply arrive_ok_control; assumption|apply dispatch_control; assumption].
+Qed.
+
+Lemma skips_traffic want t pre :
+  Forall (fun m => exists p, traffic_msg m p /\ want p = false) pre -> skips want t pre t.
+Proof.
+  induction 1 as [|m pre (p & Hm & Hw) Hs IH]; [constructor|].
+  destruct (traffic_decodes t m p Hm) as [Ha Hd].
+  econstructor; eassumption.
+Qed.
+
+(* ExpectPacket skips the control and command traffic before the first packet of the wanted type
+   and returns that one, leaving the table alone *)
+Theorem expect_packet_traffic want t pre m p post :
+  Forall (fun m => exists q, traffic_msg m q /\ want q = false) pre ->
+  traffic_msg m p -> want p = true ->
+  expect_packet want t (pre ++ m :: post) 0 = (Ok (N.of_nat (length pre), p), t).
+Proof.
+  intros Hpre Hm Hw. destruct (traffic_decodes t m p Hm) as [Ha Hd].
+  exact (expect_packet_first want t pre t m p t post (skips_traffic want t pre Hpre) Ha Hd Hw).
+Qed.
+
+(* connect's transaction id is fixed: a connect request with any other id is rejected by the peer *)
+Theorem connect_requires_tid_one t mt tid o a :
+  is_amf_type mt = true -> tid < 18446744073709551616 -> f_eq tid f_one = false ->
+  wf_propsb o = true -> wf_oprops a = true ->
+  decode_message t mt (carried mt (marshal (PConnect cConnect tid o a))) = (Err 23, t).
+Proof.
+  intros Hmt Ht Hne Ho Ha. cbn [marshal].
+  rewrite decode_message_amf; [|exact Hmt|apply enc_hdr_cons].
+  rewrite parse_amf_hdr by (try reflexivity; exact Ht).
+  change (parse_spec t cConnect tid) with (Ok new_connect, t).
+  unfold new_connect. cbn [unmarshal].
+  rewrite um_objcall_enc; [|reflexivity|exact Ht|exact Ho|exact Ha]. cbn [bind].
+  rewrite bytes_eqb_refl. cbn [negb]. rewrite Hne. reflexivity.
 Qed.
